@@ -94,3 +94,14 @@ Proof.
   destruct (existsb (Nat.eqb k) (keys d)) eqn:E; [reflexivity|].
   rewrite (alist_get_absent _ _ E). reflexivity.
 Qed.
+
+(* calls of _process_sequence_results with the number of enclosing loops *)
+Local Open Scope string_scope.
+Definition eof_relevant (f : string) : bool :=
+  String.eqb f "end_run_empty" || String.eqb f "end_run_other"
+  || String.eqb f "results_add" || String.eqb f "buffer_append"
+  || String.eqb f "flush".
+Definition eof_calls (sk : list ev) : bool :=
+  calls_eqb (filter (fun x => eof_relevant (fst x)) (call_depths 0 sk))
+            [("end_run_empty", 1); ("results_add", 1);
+             ("buffer_append", 2); ("flush", 2)]%nat.
